@@ -46,7 +46,9 @@ PARTIAL = [
     'tilt about the centre of curvature: proved that both descriptions denote the same sphere (same quadric value for every '
     'global point) and that the frame changes are the translated kernels; that the kernel then selects the same root '
     '("closest to local z = 0" is frame dependent) and the full equality of the outgoing ray are checked by correspondence '
-    'and searched for counterexamples, not proved',
+    'and searched for counterexamples, not proved; the relation is evaluated only for hits on the cap of the sphere that '
+    'is the sag sheet in both frames (within 90 deg - |tilt| - 6 deg of the vertex as seen from the centre): beyond it the '
+    'library normal is that of the other sheet (sheet hypothesis of C02)',
     'dummy surface: proved that the dummy only advances the ray (equal-media refraction is the identity, propagation and '
     'path add) and that a following PLANE sees the same intersection; for a following conic the shift-invariance of the '
     'quadric along the ray is proved, the root selection (hit between the two surfaces) is a hypothesis checked numerically',
